@@ -166,7 +166,9 @@ RelationChecks(e) ==
                    (~ea.args.hasfrom /\ ~ea.args.hasto /\ Len(g) = Len(vs) /\ \A r \in 1..Len(g) : Len(g[r]) = Len(vs[r])) =>
                       \A r \in 1..Len(g) : \A i \in 1..Len(g[r]) :
                          ("note" \in DOMAIN vs[r][i] \/ "chord" \in DOMAIN vs[r][i]) =>
-                            (IsNullText(g[r][i]) \/ \A j \in 1..Len(g[r][i]) : g[r][i][j] \in MainPartChars)>> >>
+                            (IsNullText(g[r][i]) \/ \A part \in SetOf(SplitOn(g[r][i], SPACE)) :
+                                                         \* a note of a chord that keeps nothing is printed as the placeholder '*' (in the full form too)
+                                                         part = <<STAR>> \/ \A j \in 1..Len(part) : part[j] \in MainPartChars)>> >>
          [] e.rel = "agn_vs_kern" ->         \* a = agnostic plain, b = kern: only pitch letters may differ
               << <<"relation.agnostic_differs_only_in_pitch_letters",
                    /\ Len(a.grid) = Len(b.grid)
